@@ -129,6 +129,7 @@ class Filenames(object):
     def __next__(self):
         for name in self.newFilename:
             return name
+        raise ValueError('Filename could not be created.')
 
     def addExtension(self, filename):
         """ Add a file extension to the filename if none exists """
